@@ -2,7 +2,7 @@ SPECIFICATION GSpec
 CONSTANTS
   MaxEvents = 6
   MaxRoots = 2
-  MaxDelay = 2
+  MaxDelay = 1
   MaxKids = 2
   Bounds = {}
   MaxCalls = 0
